@@ -6,6 +6,9 @@ The margin lets benign edits (a fixed site disappears, a helper is inlined)
 pass while a rule that goes blind (anchor renamed, engine broken) still fails."""
 import json, glob, os
 HERE = os.path.dirname(os.path.dirname(os.path.abspath(__file__)))
+SCAN_RULES = {"MODEL-READ-ONLY", "PATH-CUTSET", "SCOPE-WRITERS", "SKIPPED-EFFECT", "GOROUTINE-LOOPVAR", "MEMO-ON-FAILURE",
+              "MEMO-KEY", "LOST-UPDATE", "COUNTER-PAIR", "BLOCK-KINDS", "DEAD-ERROR", "RAW-FS-USE", "WALK-EVERY-FILE"}
+SCAN_RULES_PER_PROP = {("SHARED-GLOBAL", "C09")} | {("ERR-FLOW", "C%02d" % i) for i in range(11, 18)}
 floors = json.load(open(os.path.join(HERE, "tables/floors.json")))
 out = {}
 for f in sorted(glob.glob(os.path.join(HERE, "evidence/C*.json"))):
@@ -18,6 +21,11 @@ for f in sorted(glob.glob(os.path.join(HERE, "evidence/C*.json"))):
             continue
         n = sum(m.values())
         fl = max(1, min(n - 1, int(n * 0.5))) if n > 1 else 1
+        # rules that make an inventory and record a "scan" obligation saying what was
+        # scanned cannot go blind silently, and their counts fall for good reasons
+        # (the last writer of a package variable removed, a dead helper deleted)
+        if rule in SCAN_RULES or (rule, pid) in SCAN_RULES_PER_PROP:
+            fl = 1
         out[pid][rule] = fl
         old = floors.get(pid, {}).get(rule)
         if old != fl:
